@@ -122,9 +122,13 @@ public:
     }
 
     ///starts coroutine and blocks current thread until result is awailable. Then result is returned
-    auto join() {
+    T join() {
         if constexpr(std::is_void_v<T>) {
             future<T>(*this).wait();
+        } else if constexpr(std::is_reference_v<T>) {
+            //the result is a reference to an object which is not owned by the future,
+            //return the reference (don't move the object out)
+            return future<T>(*this).join();
         } else {
             return std::move(future<T>(*this).join());
         }
